@@ -251,3 +251,62 @@ Theorem C03_iter_weeks_backward : forall (start : Z) (k : nat), vdate start ->
     forall fuel acc, left < Z.of_nat fuel -> it_count weeks_next_back fuel v acc = Val (Some (acc + left)).
 Proof. exact iter_weeks_backward_u. Qed.
 Print Assumptions C03_iter_weeks_backward.
+
+(* ---- operator forms: exact value where the instant is representable, panic exactly elsewhere ---- *)
+Theorem C03_op_nadd_exact : forall a d, nvalid a -> valid d ->
+  if in_ns_range (inst a + ns d)
+  then exists b, op_nadd_td a d = Val b /\ nvalid b /\ inst b = inst a + ns d
+  else op_nadd_td a d = Panic.
+Proof. exact op_nadd_exact. Qed.
+Print Assumptions C03_op_nadd_exact.
+Theorem C03_op_nsub_exact : forall a d, nvalid a -> valid d ->
+  if in_ns_range (inst a - ns d)
+  then exists b, op_nsub_td a d = Val b /\ nvalid b /\ inst b = inst a - ns d
+  else op_nsub_td a d = Panic.
+Proof. exact op_nsub_exact. Qed.
+Print Assumptions C03_op_nsub_exact.
+
+(* ---- zone-aware date-times: the same instants whatever the offset ---- *)
+Theorem C03_zone_add_exact : forall u off d, nvalid u -> valid d ->
+  exists r, dz_checked_add_signed (mk_dtz u off) d = Val r /\
+    match r with
+    | Some z => dz_off z = off /\ nvalid (dz_utc z) /\ inst (dz_utc z) = inst u + ns d
+    | None => ~ (NS_MIN <= inst u + ns d <= NS_MAX)
+    end.
+Proof. exact zone_add_exact. Qed.
+Print Assumptions C03_zone_add_exact.
+Theorem C03_zone_sub_exact : forall u off d, nvalid u -> valid d ->
+  exists r, dz_checked_sub_signed (mk_dtz u off) d = Val r /\
+    match r with
+    | Some z => dz_off z = off /\ nvalid (dz_utc z) /\ inst (dz_utc z) = inst u - ns d
+    | None => ~ (NS_MIN <= inst u - ns d <= NS_MAX)
+    end.
+Proof. exact zone_sub_exact. Qed.
+Print Assumptions C03_zone_sub_exact.
+Theorem C03_zone_diff_exact : forall u1 o1 u2 o2, nvalid u1 -> nvalid u2 ->
+  exists d, dz_signed_duration_since (mk_dtz u1 o1) (mk_dtz u2 o2) = Val d /\ valid d /\ ns d = inst u1 - inst u2.
+Proof. exact zone_diff_exact. Qed.
+Print Assumptions C03_zone_diff_exact.
+
+(* ---- Days on a zone-aware value move the date of the local reading.  PARTIAL: proved for values whose
+        local reading is itself representable (NS_MIN <= inst u + off*10^9 <= NS_MAX, i.e. everything
+        except instants within one day of a range end seen through a non-zero offset; there the code goes
+        through the out-of-range sentinel dates BEFORE_MIN/AFTER_MAX, covered by the correspondence run
+        and the judge only).  Result: the instant moved by n whole days with the offset kept, refused
+        exactly when the target instant or its local reading is not representable. ---- *)
+Theorem C03_zone_days_exact_partial : forall u off n, nvalid u -> -86400 < off < 86400 -> in_u64 n = true ->
+  NS_MIN <= inst u + off * G <= NS_MAX ->
+  (exists r, dz_checked_add_days (mk_dtz u off) n = Val r /\
+     match r with
+     | Some z => dz_off z = off /\ nvalid (dz_utc z) /\ inst (dz_utc z) = inst u + n * 86400000000000
+     | None => ~ (NS_MIN <= inst u + n * 86400000000000 <= NS_MAX /\
+                  NS_MIN <= inst u + n * 86400000000000 + off * G <= NS_MAX)
+     end) /\
+  (exists r, dz_checked_sub_days (mk_dtz u off) n = Val r /\
+     match r with
+     | Some z => dz_off z = off /\ nvalid (dz_utc z) /\ inst (dz_utc z) = inst u - n * 86400000000000
+     | None => ~ (NS_MIN <= inst u - n * 86400000000000 <= NS_MAX /\
+                  NS_MIN <= inst u - n * 86400000000000 + off * G <= NS_MAX)
+     end).
+Proof. exact zone_days_exact_partial. Qed.
+Print Assumptions C03_zone_days_exact_partial.
